@@ -176,7 +176,36 @@ def csv(v):
 def case(rng, quick=True):
     """-> (line, meta) ; meta: op, p, label, classes (one per counted value), data for the oracle"""
     op = rng.choice(["bfrom", "bfrom", "bfromm", "cfrom", "cfromb", "bto", "bto", "consume", "bbc", "bbc", "bbcx2", "bbc2c", "bbb",
-                     "baa", "lazy", "lazy", "addccc", "prim", "pipe", "pipe", "xform", "xform", "xform"])
+                     "baa", "lazy", "lazy", "addccc", "prim", "pipe", "pipe", "xform", "xform", "xform", "pack", "pack"])
+    if op == "pack":
+        # the x2-block pack kernels of the convolution (NttPackLeft1BlkX2 … on NTT120Ref / NTT120Avx)
+        tok, p, lab = rng.choice([("be=ref", 30, "NTT120Ref"), ("be=avx", 30, "NTT120Avx")])
+        sub = rng.choice(["packl", "packr", "ppackl", "ppackr"])
+        rows = rng.range(0, 4)
+        nblk = rng.range(1, 3)
+        blk = rng.below(nblk)
+        cols = rng.range(1, 2)
+        w = 8 if sub in ("packl", "ppackl") else 16
+        stride = w * nblk * cols
+        total = stride * max(rows, 1)
+        vc = rng.choice(["classes", "classes", "all-max", "canonical"])
+        def val(i):
+            qq = PRIMES[p][(i % 8) % 4] if w == 8 else PRIMES[p][(i % 16 % 8) // 2]
+            if w == 8:
+                return U64 - 1 if vc == "all-max" else (rng.below(qq) if vc == "canonical" else u64_value(rng, p)[0])
+            return U32 - 1 if vc == "all-max" else (rng.below(qq) if vc == "canonical" else u32_value(rng, p)[0])
+        x = [val(i) for i in range(total)]
+        y = [val(i) for i in range(total)]
+        if w == 16 and sub == "ppackr" and vc != "canonical" and tok == "be=ref":
+            pass  # u32 + u32 may wrap in the reference (debug builds would panic on overflow; the harness profile wraps)
+        short = rng.chance(1, 30) and total > 0 and tok != "be=avx"
+        if short:
+            x = x[:-1]
+            y = y[:-1]
+            vc = "short-operand"
+        ys = f" y={csv(y)}" if sub.startswith("pp") else ""
+        return f"{sub} {tok} rows={rows} stride={stride} blk={blk} x={csv(x)}{ys}", {"op": sub, "p": p, "label": lab, "classes": [vc] * max(rows, 1), "rows": rows,
+                                                                                      "stride": stride, "blk": blk, "x": x, "y": y}
     if op == "xform":
         # ntt_ref / intt_ref with a fresh table (NttDFTExecute on NTT120Ref / NTT120Avx for be=)
         tok, p, lab = target(rng)
@@ -462,6 +491,31 @@ def oracle(meta, ans):
                             got = sum(r[4 * i + k] * pow(pt, i, qq) for i in range(n)) % qq
                             if (got - x[4 * s_ + k]) % qq:
                                 return f"intt output of prime {k} does not evaluate back to the input at position {s_}"
+        elif op in ("packl", "packr", "ppackl", "ppackr"):
+            if meta["classes"][0] == "short-operand":
+                return None
+            r = ints(ans)
+            rows, stride, blk, x, y = meta["rows"], meta["stride"], meta["blk"], meta["x"], meta["y"]
+            if len(r) != 16 * rows:
+                return "packed block has the wrong length"
+            for row in range(rows):
+                for e in range(8 if op in ("packl", "ppackl") else 16):
+                    if op == "packl":
+                        want = [x[row * stride + 8 * blk + e] % q[e % 4], 0]
+                        got = r[16 * row + 2 * e:16 * row + 2 * e + 2]
+                    elif op == "ppackl":
+                        i = row * stride + 8 * blk + e
+                        want = [(x[i] + y[i]) % q[e % 4], 0]
+                        got = r[16 * row + 2 * e:16 * row + 2 * e + 2]
+                    elif op == "packr":
+                        want = [x[(rows - 1 - row) * stride + 16 * blk + e]]
+                        got = [r[16 * row + e]]
+                    else:
+                        i = (rows - 1 - row) * stride + 16 * blk + e
+                        want = [(x[i] + y[i]) % U32]
+                        got = [r[16 * row + e]]
+                    if got != want:
+                        return f"{op}: row {row} entry {e} is {got}, expected {want}"
         elif op == "pow":
             qq = meta["q"]
             e = meta["n"] % (qq - 1)
